@@ -2,12 +2,14 @@
    Statements only; every proof is [exact <lemma of Proofs/C14*.v>].  The definitions the statements are about
    (resized_array_2d_from, extracted_array_2d_from, mask_resized_from, array_resized_from,
    padded_before_convolution_from, trimmed_after_convolution_from, trimmed_array_from, zoom_region,
-   zoomed_around_mask, imaging_apply_mask, grid_slim_via_mask / pixel_centre_code) are the hand model of Model/C14.v,
-   tied to /repo by the correspondence run; resize_spec / zip_mask / pixel_centre_spec / triples_spec / ext_get /
-   window_contains are the independent specification.  Arrays are lists of rows of ANY element type; shapes and
+   zoomed_around_mask, imaging_apply_mask, grid_slim_via_mask / pixel_centre_code; mask_centre, zoom_centre, zoom_offset_*,
+   zoom_mask_unmasked, zoomed_geometry, dset_apply_mask of Model/C14g.v) are the hand model, tied to /repo by the
+   correspondence run (Model/C14k.v); resize_spec / window_spec / zip_mask / pixel_centre_spec / point_spec2 / triples_spec /
+   ext_get / window_contains / is_bbox are the independent specification.  Arrays are lists of rows of ANY element type; shapes and
    indices are unbounded integers; coordinates are real numbers. *)
-From Coq Require Import ZArith List Bool Reals.
-From PAV Require Import Base.Res Base.NumOps Model.C14 Proofs.C14 Proofs.C14b Proofs.C14c Proofs.C14d Proofs.C14e.
+From Coq Require Import ZArith QArith List Bool Reals.
+From PAV Require Import Base.Res Base.NumOps Model.C14 Model.C14g Proofs.C14 Proofs.C14b Proofs.C14c Proofs.C14d Proofs.C14e
+     Proofs.C14f Proofs.C14g Proofs.C14h Proofs.C14i.
 Import ListNotations.
 Local Open Scope Z_scope.
 
@@ -31,6 +33,24 @@ Proof. exact @resize_entry_formula. Qed.
 Theorem C14_resize_negative_shape_raises : forall (A : Type) (zero pad : A) (a : list (list A)) r0 r1 origin,
   r0 < 0 \/ r1 < 0 -> resized_array_2d_from zero a (r0, r1) origin pad = Raise OtherException.
 Proof. exact @resized_negative_shape. Qed.
+
+(* an explicit origin (oy, ox): the r0 x r1 window of the pad-extended array with top-left corner
+   (oy - int(r0/2), ox - int(r1/2)); the origin pixel lands on pixel (int(r0/2), int(r1/2)) of the result *)
+Theorem C14_resize_explicit_origin_is_window : forall (A : Type) (zero pad : A) (a : list (list A)) H W r0 r1 oy ox,
+  rectb H W a = true -> 0 < H -> 0 <= r0 -> 0 <= r1 -> (oy, ox) <> (-1, -1) ->
+  resized_array_2d_from zero a (r0, r1) (oy, ox) pad = Ok (window_spec pad a (oy - r0 / 2) (ox - r1 / 2) r0 r1).
+Proof. exact @resized_origin_is_window. Qed.
+
+Theorem C14_resize_origin_pixel : forall (A : Type) (zero pad : A) (a : list (list A)) H W r0 r1 oy ox,
+  rectb H W a = true -> 0 < H -> 0 < r0 -> 0 < r1 -> (oy, ox) <> (-1, -1) -> 0 <= oy < H -> 0 <= ox < W ->
+  exists m', resized_array_2d_from zero a (r0, r1) (oy, ox) pad = Ok m' /\
+             forall d, zget2 d m' (r0 / 2) (r1 / 2) = zget2 d a oy ox.
+Proof. exact @resized_origin_pixel. Qed.
+
+(* the default origin (-1, -1) stands for the explicit origin (int(H/2), int(W/2)) *)
+Theorem C14_resize_default_origin : forall (A : Type) (zero pad : A) (a : list (list A)) rs,
+  resized_array_2d_from zero a rs (-1, -1) pad = resized_array_2d_from zero a rs (int_half (nrows a), int_half (ncols a)) pad.
+Proof. exact @resized_default_origin. Qed.
 
 (* "centred": per axis the two margins of the crop / embedding differ by at most one and are equal when the parity is kept *)
 Theorem C14_margins_centred : forall n r, 0 <= r -> 0 <= n ->
@@ -56,12 +76,19 @@ Theorem C14_pad_is_spec : forall (A : Type) (zero : A) (arr : arr2d A) H W k0 k1
   = Ok (resized_arr_spec zero arr (H + (k0 - 1)) (W + (k1 - 1)) mask_pad_value).
 Proof. exact @padded_is_spec. Qed.
 
-(* trimming for an odd kernel = the centred crop to shape - (kernel - 1) (non-empty result) *)
+(* trimming for ANY odd kernel = the centred crop to shape - (kernel - 1); where that is not positive along an axis nothing
+   survives along it (resize_spec with a non-positive target is empty along that axis), as the code's slices do *)
 Theorem C14_trim_is_spec : forall (A : Type) (zero : A) (arr : arr2d A) H W k0 k1,
   rectb H W (fst arr) = true /\ rectb H W (snd arr) = true /\ 0 < H ->
-  Z.odd k0 = true -> Z.odd k1 = true -> 1 <= k0 -> 1 <= k1 -> k0 - 1 < H -> k1 - 1 <= W ->
+  Z.odd k0 = true -> Z.odd k1 = true -> 1 <= k0 -> 1 <= k1 ->
   trimmed_after_convolution_from zero arr (k0, k1) = Ok (resized_arr_spec zero arr (H - (k0 - 1)) (W - (k1 - 1)) 0).
-Proof. exact @trimmed_is_spec. Qed.
+Proof. exact @trimmed_is_spec_all. Qed.
+
+(* in particular a kernel taller than the array + 1 leaves the empty array and the empty mask *)
+Theorem C14_trim_oversized_kernel_is_empty : forall (A : Type) (zero : A) (arr : arr2d A) H W k0 k1,
+  rectb H W (fst arr) = true /\ rectb H W (snd arr) = true /\ 0 < H -> Z.odd k0 = true -> 1 <= k0 -> H <= k0 - 1 ->
+  trimmed_after_convolution_from zero arr (k0, k1) = Ok ([], []).
+Proof. exact @trimmed_no_rows. Qed.
 
 (* ---------------------------------------------------------------- 2. round trips *)
 (* padding for an odd kernel followed by trimming for the same kernel is the identity: all shapes, all odd kernels,
@@ -73,6 +100,13 @@ Theorem C14_pad_then_trim_id : forall (A : Type) (zero : A) (arr : arr2d A) H W 
        (fun p => trimmed_after_convolution_from zero p (k0, k1))
   = Ok (normal_arr zero arr).
 Proof. exact @pad_then_trim_id. Qed.
+
+(* the odd-kernel hypothesis is needed: a 2x2 kernel pads one row / column which the trim does not remove *)
+Theorem C14_even_kernel_pad_trim_not_identity :
+  exists (arr : arr2d Z),
+    bind (padded_before_convolution_from 0 arr (2, 2) 0) (fun p => trimmed_after_convolution_from 0 p (2, 2))
+    <> Ok (normal_arr 0 arr).
+Proof. exact even_kernel_pad_trim_not_identity. Qed.
 
 (* enlarging (any larger shape, any parity) then shrinking back loses nothing *)
 Theorem C14_enlarge_then_shrink_id : forall (A : Type) (zero : A) (arr : arr2d A) H W r0 r1 mask_pad_value,
@@ -87,6 +121,13 @@ Theorem C14_trimmed_array_is_centred_crop : forall (A : Type) (zero : A) (p : li
   rectb H W p = true -> 0 < H -> 0 <= s0 <= H -> 0 <= s1 <= W -> Z.even (H - s0) = true -> Z.even (W - s1) = true ->
   trimmed_array_from (H, W) p (s0, s1) = resize_spec zero p s0 s1.
 Proof. exact @trimmed_array_is_spec. Qed.
+
+(* any parity: floor division cuts (H - s0) // 2 rows at each side, so when the difference is odd one row / column MORE
+   than requested survives; the result is the centred crop to that shape *)
+Theorem C14_trimmed_array_any_parity : forall (A : Type) (zero : A) (p : list (list A)) H W s0 s1,
+  rectb H W p = true -> 0 < H -> 0 <= s0 <= H -> 0 <= s1 <= W ->
+  trimmed_array_from (H, W) p (s0, s1) = resize_spec zero p (s0 + (H - s0) mod 2) (s1 + (W - s1) mod 2).
+Proof. exact @trimmed_array_any_parity. Qed.
 
 Theorem C14_pad_then_trimmed_array_id : forall (A : Type) (zero : A) (arr : arr2d A) H W k0 k1 mask_pad_value,
   rectb H W (fst arr) = true /\ rectb H W (snd arr) = true /\ 0 < H ->
@@ -181,6 +222,26 @@ Theorem C14_apply_mask_then_trim_id :
   = Ok ((zip_mask zero data m, m), (zip_mask zero noise m, m)).
 Proof. exact @apply_mask_then_trim_id. Qed.
 
+(* masking a masked dataset again: `self.unmasked` -- every mask is applied to the ORIGINAL unmasked data, whatever the
+   first mask was and whether or not it made the dataset padded *)
+Theorem C14_apply_mask_twice_uses_unmasked_data :
+  forall (A : Type) (zero : A) (data noise : list (list A)) (m1 m2 : list (list bool)) H W psf,
+  rectb H W data = true -> rectb H W noise = true -> rectb H W m1 = true -> 0 < H ->
+  match psf with Some k => odd_kernel k = true | None => True end ->
+  bind (dset_apply_mask zero (dset_new data noise) m1 psf) (fun s1 => dset_apply_mask zero s1 m2 psf)
+  = dset_apply_mask zero (dset_new data noise) m2 psf.
+Proof. exact @apply_mask_twice. Qed.
+
+(* the same when the padded dataset is first trimmed back *)
+Theorem C14_apply_mask_trim_apply_mask :
+  forall (A : Type) (zero : A) (data noise : list (list A)) (m1 m2 : list (list bool)) H W k,
+  rectb H W data = true -> rectb H W noise = true -> rectb H W m1 = true -> 0 < H -> odd_kernel k = true ->
+  blurring_raises m1 k = true ->
+  bind (dset_apply_mask zero (dset_new data noise) m1 (Some k)) (fun s1 =>
+  bind (dset_trimmed zero s1 k) (fun s2 => dset_apply_mask zero s2 m2 (Some k)))
+  = dset_apply_mask zero (dset_new data noise) m2 (Some k).
+Proof. exact @apply_mask_trim_apply_mask. Qed.
+
 (* ---------------------------------------------------------------- 4. zoom *)
 Theorem C14_extract_is_window : forall (A : Type) (zero : A) (a : list (list A)) H W y0 y1 x0 x1,
   rectb H W a = true -> 0 < H -> y0 <= y1 -> x0 <= x1 ->
@@ -208,6 +269,91 @@ Theorem C14_zoom_all_masked_raises : forall (A : Type) (zero : A) (arr : arr2d A
   unmasked_coords (snd arr) = [] -> zoomed_around_mask zero arr buffer = Raise OtherException.
 Proof. exact @zoom_all_masked_raises. Qed.
 
+(* every buffer, negative ones included: the (y1 - y0 + 2b) x (x1 - x0 + 2b) window of the zero-extended array with corner
+   (y0 - b, x0 - b), or -- when that shape is negative -- np.zeros raises *)
+Theorem C14_zoom_is_window_any_buffer : forall (A : Type) (zero : A) (arr : arr2d A) H W b y0 y1 x0 x1,
+  rectb H W (fst arr) = true -> 0 < H -> zoom_region (snd arr) = Ok (y0, y1, x0, x1) ->
+  0 <= (y1 - y0) + 2 * b -> 0 <= (x1 - x0) + 2 * b ->
+  zoomed_around_mask zero arr b = Ok (window_spec zero (fst arr) (y0 - b) (x0 - b) ((y1 - y0) + 2 * b) ((x1 - x0) + 2 * b)).
+Proof. exact @zoom_is_window. Qed.
+
+Theorem C14_zoom_negative_window_raises : forall (A : Type) (zero : A) (arr : arr2d A) b y0 y1 x0 x1,
+  zoom_region (snd arr) = Ok (y0, y1, x0, x1) -> (y1 - y0) + 2 * b < 0 \/ (x1 - x0) + 2 * b < 0 ->
+  zoomed_around_mask zero arr b = Raise OtherException.
+Proof. exact @zoom_negative_window_raises. Qed.
+
+(* the zoom region is centred on THE bounding box of the unmasked pixels (doubled centre index y0 + (y1 - 1) = imin + imax),
+   contains it, keeps its longer side and grows the shorter one to the longer one or one less *)
+Theorem C14_zoom_region_centred_on_bounding_box : forall (m : list (list bool)) y0 y1 x0 x1,
+  zoom_region m = Ok (y0, y1, x0, x1) ->
+  exists a0 a1 b0 b1, is_bbox m a0 a1 b0 b1 /\
+    y0 + (y1 - 1) = a0 + a1 /\ x0 + (x1 - 1) = b0 + b1 /\ y0 <= a0 /\ a1 < y1 /\ x0 <= b0 /\ b1 < x1 /\
+    Z.max (a1 - a0) (b1 - b0) - 1 <= y1 - 1 - y0 <= Z.max (a1 - a0) (b1 - b0) /\
+    Z.max (a1 - a0) (b1 - b0) - 1 <= x1 - 1 - x0 <= Z.max (a1 - a0) (b1 - b0).
+Proof. exact zoom_region_centred_on_bbox. Qed.
+
+(* Mask2D.mask_centre (the origin given to the zoomed array) is the scaled coordinate of the centre of the unmasked bounding
+   box: any non-zero pixel scales of either sign, any origin *)
+Theorem C14_mask_centre_is_bounding_box_centre : forall (m : list (list bool)) a0 a1 b0 b1 (sy sx oy ox : R),
+  is_bbox m a0 a1 b0 b1 -> sy <> 0%R -> sx <> 0%R ->
+  @mask_centre ROps m (sy, sx, oy, ox) = Ok (@point_spec2 ROps (nrows m) (ncols m) (sy, sx, oy, ox) (a0 + a1) (b0 + b1)).
+Proof. exact mask_centre_is_bbox_centre. Qed.
+
+(* point_spec2 at even doubled indices is the pixel-centre formula *)
+Theorem C14_point_spec2_is_pixel_centre : forall H W (g : @geom ROps) y x,
+  @point_spec2 ROps H W g (2 * y) (2 * x) = @pixel_centre_spec ROps H W g y x.
+Proof. exact point_spec2_pixel. Qed.
+
+(* the output geometry of Array2D.zoomed_around_mask (shape, pixel scales, origin = mask_centre): pixel (i, j) of the
+   result holds the value of the zero-extended array at (y0 - b + i, x0 - b + j) AND carries the scaled coordinate that pixel
+   has in the original frame -- every buffer whose window is not negative *)
+Theorem C14_zoom_keeps_value_and_coordinate :
+  forall (A : Type) (zero : A) (arr : arr2d A) H W b y0 y1 x0 x1 (sy sx oy ox : R),
+  rectb H W (fst arr) = true -> rectb H W (snd arr) = true -> 0 < H ->
+  zoom_region (snd arr) = Ok (y0, y1, x0, x1) -> sy <> 0%R -> sx <> 0%R ->
+  let h := (y1 - y0) + 2 * b in let w := (x1 - x0) + 2 * b in
+  0 <= h -> 0 <= w ->
+  exists e cy cx, zoomed_around_mask zero arr b = Ok e /\
+    @mask_centre ROps (snd arr) (sy, sx, oy, ox) = Ok (cy, cx) /\
+    @zoomed_geometry ROps (snd arr) (sy, sx, oy, ox) b = Ok ((h, w), (sy, sx, cy, cx)) /\ rectb h w e = true /\
+    forall i j, 0 <= i < h -> 0 <= j < w ->
+      (forall d, zget2 d e i j = ext_get zero (fst arr) (y0 - b + i) (x0 - b + j)) /\
+      @pixel_centre_spec ROps h w (sy, sx, cy, cx) i j = @pixel_centre_spec ROps H W (sy, sx, oy, ox) (y0 - b + i) (x0 - b + j).
+Proof. exact @zoomed_keeps_value_and_coordinate. Qed.
+
+Theorem C14_zoom_geometry_negative_window_raises : forall (m : list (list bool)) (sy sx oy ox : R) y0 y1 x0 x1 b,
+  zoom_region m = Ok (y0, y1, x0, x1) -> (y1 - y0) + 2 * b < 0 \/ (x1 - x0) + 2 * b < 0 ->
+  @zoomed_geometry ROps m (sy, sx, oy, ox) b = Raise OtherException.
+Proof. exact zoomed_geometry_negative_window_raises. Qed.
+
+(* Mask2D.zoom_mask_unmasked: shape of the zoom region, origin = origin + zoom_offset_scaled = mask_centre (the geometry of
+   zoomed_around_mask(buffer=0)); each of its pixels carries the coordinate of the pixel of the original frame it covers *)
+Theorem C14_zoom_mask_unmasked_keeps_coordinates : forall (m : list (list bool)) y0 y1 x0 x1 (sy sx oy ox : R),
+  zoom_region m = Ok (y0, y1, x0, x1) -> sy <> 0%R -> sx <> 0%R ->
+  exists cy cx, @mask_centre ROps m (sy, sx, oy, ox) = Ok (cy, cx) /\
+    @zoom_mask_unmasked ROps m (sy, sx, oy, ox) = Ok ((y1 - y0, x1 - x0), (sy, sx, cy, cx)) /\
+    @zoomed_geometry ROps m (sy, sx, oy, ox) 0 = Ok ((y1 - y0, x1 - x0), (sy, sx, cy, cx)) /\
+    forall i j, @pixel_centre_spec ROps (y1 - y0) (x1 - x0) (sy, sx, cy, cx) i j
+                = @pixel_centre_spec ROps (nrows m) (ncols m) (sy, sx, oy, ox) (y0 + i) (x0 + j).
+Proof. exact zoom_mask_unmasked_keeps_coordinates. Qed.
+
+(* Mask2D.zoom_centre / zoom_offset_pixels / zoom_offset_scaled *)
+Theorem C14_zoom_offsets : forall (m : list (list bool)) a0 a1 b0 b1 (sy sx oy ox : R),
+  is_bbox m a0 a1 b0 b1 -> sy <> 0%R -> sx <> 0%R ->
+  let cy := (IZR (a0 + a1) / 2)%R in let cx := (IZR (b0 + b1) / 2)%R in
+  let py := (cy - IZR (nrows m - 1) / 2)%R in let px := (cx - IZR (ncols m - 1) / 2)%R in
+  @zoom_centre ROps m (sy, sx, oy, ox) = Ok (cy, cx) /\
+  @zoom_offset_pixels ROps m (sy, sx, oy, ox) = Ok (py, px) /\
+  @zoom_offset_scaled ROps m (sy, sx, oy, ox) = Ok ((- sy * py)%R, (sx * px)%R).
+Proof. exact zoom_offsets. Qed.
+
+Theorem C14_zoom_geometry_all_masked_raises : forall (m : list (list bool)) (g : @geom ROps) b,
+  unmasked_coords m = [] ->
+  mask_centre m g = Raise OtherException /\ zoom_centre m g = Raise OtherException /\
+  zoom_offset_pixels m g = Raise OtherException /\ zoom_offset_scaled m g = Raise OtherException /\
+  zoom_mask_unmasked m g = Raise OtherException /\ zoomed_geometry m g b = Raise OtherException.
+Proof. exact (@zoom_geometry_all_masked ROps). Qed.
+
 (* ---------------------------------------------------------------- non-vacuity: concrete inputs meeting the hypotheses *)
 Definition ex_vals : list (list Z) := [[1; 2; 3]; [4; 5; 6]].
 Definition ex_mask : list (list bool) := [[false; true; false]; [true; false; false]].
@@ -232,7 +378,24 @@ Example C14_ex_pad_trim :
   bind (padded_before_convolution_from 0 ex_arr (3, 5) 1) (fun p => trimmed_after_convolution_from 0 p (3, 5))
   = Ok ([[1; 0; 3]; [0; 5; 6]], ex_mask).
 Proof. vm_compute. repeat split. Qed.
-(* trim hypotheses: 4x7 array, kernel (3, 5): 3 - 1 < 4, 5 - 1 <= 7 *)
+(* explicit origin (1, 2) of a 2x3 array, target 3x2: corner (1 - 1, 2 - 1) = (0, 1); the origin pixel 6 lands on (1, 1) *)
+Example C14_ex_explicit_origin :
+  (1, 2) <> (-1, -1) /\
+  resized_array_2d_from 0 ex_vals (3, 2) (1, 2) 9 = Ok [[2; 3]; [5; 6]; [9; 9]] /\
+  window_spec 9 ex_vals 0 1 3 2 = [[2; 3]; [5; 6]; [9; 9]].
+Proof. vm_compute. repeat split. discriminate. Qed.
+(* a kernel (5, 3) on a 2x3 array: no row survives; kernel (1, 5): the two rows survive, empty *)
+Example C14_ex_trim_oversized :
+  trimmed_after_convolution_from 0 ex_arr (5, 3) = Ok ([], []) /\
+  trimmed_after_convolution_from 0 ex_arr (1, 5) = Ok ([[]; []], [[]; []]) /\
+  resized_arr_spec 0 ex_arr (2 - (1 - 1)) (3 - (5 - 1)) 0 = ([[]; []], [[]; []]).
+Proof. vm_compute. repeat split. Qed.
+(* trimmed_array_from 3x3 -> requested 2x2 (parity changes): the 3x3 array comes back (2 + 1 rows / columns) *)
+Example C14_ex_trimmed_array_parity_change :
+  trimmed_array_from (3, 3) [[1; 2; 3]; [4; 5; 6]; [7; 8; 9]] (2, 2) = [[1; 2; 3]; [4; 5; 6]; [7; 8; 9]] /\
+  (2 + (3 - 2) mod 2 = 3).
+Proof. vm_compute. repeat split. Qed.
+(* trim hypotheses: 4x7 array, kernel (3, 5) *)
 Example C14_ex_trim :
   trimmed_after_convolution_from 0 ([[0; 0; 0; 0; 0; 0; 0]; [0; 0; 1; 2; 3; 0; 0]; [0; 0; 4; 5; 6; 0; 0]; [0; 0; 0; 0; 0; 0; 0]],
                                     repeat (repeat false 7%nat) 4%nat) (3, 5)
@@ -266,6 +429,27 @@ Example C14_ex_zoom :
   zoom_region [[true; true]; [true; true]] = Raise OtherException.
 Proof. vm_compute. repeat split; discriminate. Qed.
 
+(* zoom geometry: the bounding box of ex_mask is rows 0..1, columns 0..2; region (0, 2, 0, 3); buffer -1 leaves a 0 x 1 window,
+   buffer -2 raises; pixel scales (1/2, 2), origin (1, -2): mask_centre = (1, -2) (the frame's own centre) *)
+Example C14_ex_zoom_geometry :
+  bbox ex_mask = Some (0, 1, 0, 2) /\
+  @zoomed_geometry QOps ex_mask ((1 # 2)%Q, 2%Q, 1%Q, (-2)%Q) 1 = Ok ((4, 5), ((1 # 2)%Q, 2%Q, 1%Q, (-2)%Q)) /\
+  @zoomed_geometry QOps ex_mask ((1 # 2)%Q, 2%Q, 1%Q, (-2)%Q) (-1) = Ok ((0, 1), ((1 # 2)%Q, 2%Q, 1%Q, (-2)%Q)) /\
+  @zoomed_geometry QOps ex_mask ((1 # 2)%Q, 2%Q, 1%Q, (-2)%Q) (-2) = Raise OtherException /\
+  zoomed_around_mask 0 ex_arr (-1) = Ok [] /\
+  @zoom_mask_unmasked QOps [[true; true; true]; [true; true; false]] (1%Q, 1%Q, 0%Q, 0%Q)
+    = Ok ((1, 1), (1%Q, 1%Q, (-1 # 2)%Q, 1%Q)).
+Proof. vm_compute. repeat split. Qed.
+Example C14_ex_is_bbox : is_bbox ex_mask 0 1 0 2.
+Proof. apply bbox_is_bbox. vm_compute. reflexivity. Qed.
+(* apply_mask twice: first mask pads (unmasked corner, 3x3 PSF), the second mask is applied to the original data *)
+Example C14_ex_apply_mask_twice :
+  option_map (fun s => fst (fst (fst s)))
+    (match bind (dset_apply_mask 0 (dset_new ex_vals ex_vals) ex_mask (Some (3, 3)))
+                (fun s1 => dset_apply_mask 0 s1 [[true; true; true]; [true; false; true]] (Some (3, 3))) with Ok r => Some r | Raise _ => None end)
+  = Some [[0; 0; 0; 0; 0]; [0; 0; 0; 0; 0]; [0; 0; 5; 0; 0]; [0; 0; 0; 0; 0]].
+Proof. vm_compute. reflexivity. Qed.
+
 Print Assumptions C14_resize_is_centred_crop_or_embedding.
 Print Assumptions C14_resize_entry_formula.
 Print Assumptions C14_resize_negative_shape_raises.
@@ -291,3 +475,21 @@ Print Assumptions C14_extract_is_window.
 Print Assumptions C14_zoom_region_contains_unmasked.
 Print Assumptions C14_zoom_contains_unmasked.
 Print Assumptions C14_zoom_all_masked_raises.
+Print Assumptions C14_resize_explicit_origin_is_window.
+Print Assumptions C14_resize_origin_pixel.
+Print Assumptions C14_resize_default_origin.
+Print Assumptions C14_trim_oversized_kernel_is_empty.
+Print Assumptions C14_trimmed_array_any_parity.
+Print Assumptions C14_even_kernel_pad_trim_not_identity.
+Print Assumptions C14_apply_mask_twice_uses_unmasked_data.
+Print Assumptions C14_apply_mask_trim_apply_mask.
+Print Assumptions C14_zoom_is_window_any_buffer.
+Print Assumptions C14_zoom_negative_window_raises.
+Print Assumptions C14_zoom_region_centred_on_bounding_box.
+Print Assumptions C14_mask_centre_is_bounding_box_centre.
+Print Assumptions C14_point_spec2_is_pixel_centre.
+Print Assumptions C14_zoom_keeps_value_and_coordinate.
+Print Assumptions C14_zoom_geometry_negative_window_raises.
+Print Assumptions C14_zoom_mask_unmasked_keeps_coordinates.
+Print Assumptions C14_zoom_offsets.
+Print Assumptions C14_zoom_geometry_all_masked_raises.
